@@ -52,6 +52,10 @@ def configurations(tier):
             ('or', True, 'xor', BIN_L, False))))
         cfgs.append(('custom:xor-own-group-after-or', ins0(
             ('or', True, 'xor', BIN_L, True))))
+        # a group whose FIRST member is a prefix operator and that also
+        # holds a right-associative binary one needs two precedence rows
+        cfgs.append(('custom:right-op-joins-sign-group', ins0(
+            ('-', False, '^', BIN_R, False))))
         return cfgs
     cfgs.append(('delegates', lambda: F(allow_delegates=True)))
     cfgs.append(('no-keyword-operator', lambda: F(keyword_operator=None)))
@@ -99,6 +103,11 @@ def configurations(tier):
                  ins(('or', True, 'xor', BIN_L, True))))
     cfgs.append(('custom:second-op-new-group-after-arrow',
                  ins(('->', True, '|>', BIN_R, True))))
+    cfgs.append(('custom:right-op-joins-sign-group',
+                 ins(('-', False, '^', BIN_R, False))))
+    cfgs.append(('custom:right-op-joins-new-prefix-group',
+                 ins(('*', True, '~', PRE, True),
+                     ('~', False, '**', BIN_R, False))))
     cfgs.append(('custom:two-new-groups',
                  ins(('and', True, '^^', BIN_R, True),
                      ('.', True, '!', SUF, True),
